@@ -107,7 +107,7 @@ def run(ctx):
     cr = ctx.body('db::DbInner::commit_raw')
     if cr:
         some = lib.prune_option_field(cr, '.DbInner.bg_err', keep_some=True)
-        gate = [bi for bi in cr.normal_blocks() for s in cr.blocks[bi]['s'] if s['k'] == 'assign' and s['r']['k'] == 'agg' and s['r']['ak'] == 'Adt:error::Error::Background']
+        gate, _ = lib.option_gate_sites(cr, '.DbInner.bg_err', 'Adt:error::Error::Background')
         w = cr.find_path([0], cr.return_blocks(), removed=set(gate), removed_edges=some) if some and gate else ['?']
         ctx.ob('2f later-commits-refused', 'K1-must-pass', cr.path, 'with a background error recorded every path through commit_raw returns Error::Background', w is None, '' if w is None else lib.short_path(cr, w))
     # ------------------------------------------------------------ 2g. which I/O error may be taken for "end of data"
